@@ -537,6 +537,7 @@ where
             _ => None,
         }
     };
+    let lineage_uld = ld_equal == Some(false) || sources(act).iter().any(|&i| st.regs[i as usize].lineage_uld);
     let (pt_badbase, pt_form, pt_ld, cst_limbs_exceed_dst) = match act {
         Action::PtInto { pt, .. } | Action::PtAssign { pt, .. } => {
             let ldp = cx.p.pt_precs[pt.prec as usize].0;
@@ -558,6 +559,7 @@ where
             "inner": {"action": act, "depth": depth},
             "a": reg_desc(st, oa), "b": reg_desc(st, ob), "d": reg_desc(st, Some(dsti)),
             "any_src_noncompact": noncompact, "mul_operands_log_delta_equal": ld_equal,
+            "lineage_has_unequal_log_delta_product": lineage_uld,
             "pt_badbase": pt_badbase, "pt_form": pt_form, "pt_log_delta": pt_ld, "const_limbs_exceed_dst": cst_limbs_exceed_dst,
             "predicted_ok": pred.ok, "predicted_errors": pred.errs,
         });
@@ -695,7 +697,7 @@ where
                                 break;
                             }
                         }
-                        let class = format!("{opname}|wrong_value|scale={scale_bits:?}|nc={noncompact}|ldeq={ld_equal:?}");
+                        let class = format!("{opname}|wrong_value|scale={scale_bits:?}|nc={noncompact}|ldeq={ld_equal:?}|lin={lineage_uld}");
                         env.fc.report(rec, env.local, class, || base(
                                 "wrong_value",
                                 json!({"log2_error": worst.log2(), "log2_tolerance": tol.log2(), "slot": at,
@@ -716,6 +718,7 @@ where
                 sh: s,
                 err: e,
                 blank: false,
+                lineage_uld,
             },
         ));
     }
@@ -747,6 +750,7 @@ where
             sh: None,
             err: 0.0,
             blank: true,
+            lineage_uld: false,
         })
     };
     State {
